@@ -134,7 +134,9 @@ def ticks_record(d0, d1, m, pre=None):
     rec.update({
         "mant": mant, "Q": Q, "exp": exp, "lo": q(lo), "hi": q(hi),
         "tq": [q(t) for t in ticks], "n": [int(round(Fraction(t) / (Fraction(mant) * Fraction(10) ** exp))) - base_n for t in ticks],
-        "lab": labels, "lq": [q(readback(x)) if readback(x) is not None else 0 for x in labels],
+        # (a label that reads back as a number absurdly far from its tick is clamped into TLC's integers: it still does not
+        #  read back as its tick)
+        "lab": labels, "lq": [max(-2 * 10 ** 9, min(2 * 10 ** 9, q(readback(x)))) if readback(x) is not None else 0 for x in labels],
         "lok": [0 if readback(x) is None else 1 for x in labels],
     })
     # "inside the domain up to floating-point effects at the two ends": how far the outermost ticks lie beyond the ends, in
